@@ -2,15 +2,61 @@
 
 package workers
 
-import "github.com/form3tech-oss/f1/v2/pkg/f1/testing"
+import (
+	"reflect"
+	"unsafe"
+
+	"github.com/form3tech-oss/f1/v2/pkg/f1/testing"
+)
 
 // Read-only accessors for the verification harnesses (added by overlay only).
+// They look fields up by reflection so that a refactoring of the private
+// structures (an atomic replaced by a mutex-protected integer, say) does not
+// turn into a build failure of the harness.
 
 func (s *ActiveScenario) VerifNewIterationState() *iterationState { return s.newIterationState() }
 
 func (st *iterationState) VerifT() *testing.T { return st.t }
 
+type peeker64 interface{ Peek() int64 }
+type peekerBool interface{ Peek() bool }
+
+// peekInt returns the first integer-valued field (a shim atomic or a plain
+// integer) found in v, depth first.
+func peekInt(v reflect.Value) (int64, bool) {
+	if !v.CanAddr() {
+		return 0, false
+	}
+	p := reflect.NewAt(v.Type(), unsafe.Pointer(v.UnsafeAddr()))
+	if pk, ok := p.Interface().(peeker64); ok {
+		return pk.Peek(), true
+	}
+	switch v.Kind() {
+	case reflect.Int, reflect.Int64, reflect.Int32:
+		return reflect.NewAt(v.Type(), unsafe.Pointer(v.UnsafeAddr())).Elem().Int(), true
+	case reflect.Struct:
+		if _, isBool := p.Interface().(peekerBool); isBool {
+			return 0, false
+		}
+		for i := 0; i < v.NumField(); i++ {
+			if v.Field(i).Type().PkgPath() == "github.com/form3tech-oss/f1/v2/internal/verifshim/vsync" {
+				continue
+			}
+			if n, ok := peekInt(v.Field(i)); ok {
+				return n, true
+			}
+		}
+	}
+	return 0, false
+}
+
 // VerifPending peeks at the pending-request counter without a scheduling point.
-func (p *TriggerPool) VerifPending() int64 { return p.jobsToExecute.num.Peek() }
+func (p *TriggerPool) VerifPending() int64 {
+	n, ok := peekInt(reflect.ValueOf(&p.jobsToExecute).Elem())
+	if !ok {
+		panic("verif: cannot find the pending-request counter in TriggerPool.jobsToExecute")
+	}
+	return n
+}
 
 func (p *TriggerPool) VerifStopped() bool { return p.stopWorkers.Peek() }
